@@ -4,7 +4,16 @@ import time
 
 import cssread
 from props import selgen as G
-from vlib import Check, RunnerPool, compile_job, driver, hexs, log, unhex
+from vlib import Check, RunnerPool, compile_job, hexs, log, unhex
+from vlib import driver as _driver
+
+def driver(lines, chunk=2500):
+    """vlib.driver in chunks: bounded memory of the driver process and of the pipe buffers"""
+    out = []
+    for i in range(0, len(lines), chunk):
+        out += _driver(lines[i:i + chunk])
+    return out
+
 
 EXPECT = ("after `E {@extend T}` every rule's rewritten selector matches an element context iff the original selector "
           "matches it once extenders are credited with the target (subset for complex extenders); originals keep "
